@@ -1058,7 +1058,17 @@ fn sgn(rng: &mut Rng) -> f64 {
 }
 
 fn p2(e: i64) -> f64 {
-    2f64.powi(e as i32)
+    // exact for every exponent: `powi` computes the positive power first, so it gives 0 below 2^-1023
+    let e = e as i32;
+    if e > 1023 {
+        f64::INFINITY
+    } else if e >= -1022 {
+        f64::from_bits(((e + 1023) as u64) << 52)
+    } else if e >= -1074 {
+        f64::from_bits(1u64 << (e + 1074))
+    } else {
+        0.0
+    }
 }
 
 fn shuffle_rows(rng: &mut Rng, n: usize, v: &mut [f64]) {
